@@ -368,7 +368,9 @@ where
         let (new_laidx, n_pstack) =
             self.parser
                 .lr_cactus(None, laidx, laidx + 1, n.pstack.clone(), &mut None);
-        if n.pstack != n_pstack {
+        // Shifting a lexeme is progress even if the stack ends up with the same states as before
+        // (e.g. `L: L 'x' | ;` reduces and then shifts into the state it started in).
+        if new_laidx > laidx || n.pstack != n_pstack {
             let n_repairs = if new_laidx > laidx {
                 n.repairs.child(RepairMerge::Repair(Repair::Shift))
             } else {
